@@ -294,11 +294,12 @@ package saml2
 //@   requires el != nil && !(obj is *etree.Element) && !(obj is *etree.Document)
 //@   requires [C01, C03, C04, C08] zero.response: obj is *types.Response ==> *obj.(*types.Response) == types.Response{}
 //@   requires [C01, C03, C04, C08] zero.assertion: obj is *types.Assertion ==> *obj.(*types.Assertion) == types.Assertion{}
-//@   requires [C10, C04] zero.logoutresponse: obj is *types.LogoutResponse ==> *obj.(*types.LogoutResponse) == types.LogoutResponse{}
+//@   requires [C10, C04, C20] zero.logoutresponse: obj is *types.LogoutResponse ==> *obj.(*types.LogoutResponse) == types.LogoutResponse{}
+//@   requires [C20] zero.unverified: obj is *types.UnverifiedBaseResponse ==> *obj.(*types.UnverifiedBaseResponse) == types.UnverifiedBaseResponse{}
 //@   requires [C10, C04] zero.logoutrequest: obj is *LogoutRequest ==> *obj.(*LogoutRequest) == LogoutRequest{}
 //@   requires [C07] zero.encrypted: obj is *types.EncryptedAssertion ==> *obj.(*types.EncryptedAssertion) == types.EncryptedAssertion{}
 //@   safety [C09]
-//@   assigns *obj, el.parent.Child, el.parent, el.index
+//@   assigns *obj, el.parent.Child, el.parent, el.index, all etree.Document.$root
 //@   ensures [C01, C04] src.response: err == nil && obj is *types.Response ==> obj.(*types.Response).$src == el
 //@   ensures [C01, C04] src.assertion: err == nil && obj is *types.Assertion ==> obj.(*types.Assertion).$src == el
 //@   ensures [C10, C04] src.logoutresponse: err == nil && obj is *types.LogoutResponse ==> obj.(*types.LogoutResponse).$src == el
@@ -310,6 +311,7 @@ package saml2
 //@   ensures [C04] flag.logoutresponse: obj is *types.LogoutResponse ==> !obj.(*types.LogoutResponse).SignatureValidated
 //@   ensures [C04] flag.logoutrequest: obj is *LogoutRequest ==> !obj.(*LogoutRequest).SignatureValidated
 //@   ensures [C09] rooted: el.parent != nil
+//@   ensures [C20, C08] docroot: el.parent.parent == nil
 //@   ensures [C01, C02] nosentinel: err != etreeutils.ErrTraversalHalted && err != dsig.ErrMissingSignature
 
 //@ pure func EffLimit(maxSize int64) int64 {
@@ -409,6 +411,8 @@ package saml2
 
 // decryptAssertions replaces every EncryptedAssertion that is a direct child of el by the parse of its
 // plaintext. It confers no trust: nothing it adds is marked verified (Verified comes only from Validate).
+// Whatever it adds under el is a saml:Assertion element (C20, C08): no other Response-level child (Issuer, Status,
+// ...) can come out of a ciphertext, so the Response-level values decoded afterwards are those of the wire document.
 //@ func (sp *SAMLServiceProvider) decryptAssertions(el *etree.Element) (err error)
 //@   requires SPValid(sp) && el != nil && el.parent != nil
 //@   safety [C09]
@@ -418,6 +422,7 @@ package saml2
 //@     invariant [C09] certok: decryptCert != nil ==> KeyOK(decryptCert.PrivateKey)
 //@     invariant [C09] rooted: el.parent != nil
 //@     visit [C07, C01] direct: old($m.parent) == el
+//@     visit [C20, C08] assertion.only: forall e *etree.Element :: e.parent == el && old(e.parent) != el ==> e.Tag == AssertionTag && nsURI(e) == SAMLAssertionNamespace
 //@     nohalt [C11, C07]
 
 // ---------------------------------------------------------------------------
@@ -557,16 +562,20 @@ package saml2
 //@   exit [C03] profile: err == nil ==> ProfileOK(sp, response)
 //@   exit [C05, C06] warnings: err == nil ==> CondWellFormed(response.Assertions[0].Conditions)
 //@        && WarningsMirror(sp, response.Assertions[0].Conditions, assertionInfo.WarningInfo)
-//@   exit [C08] nameid: err == nil ==> assertionInfo.NameID == response.Assertions[0].Subject.NameID.Value
+//@   exit [C08, C01] nameid: err == nil ==> assertionInfo.NameID == response.Assertions[0].Subject.NameID.Value
 //@   loop 0
 //@     invariant [C08] present: forall j int :: 0 <= j && j < $i ==> has(assertionInfo.Values, attributeStatement.Attributes[j].Name)
 //@     invariant [C08] last: forall j int :: 0 <= j && j < $i ==>
 //@          (forall i int :: j < i && i < $i ==> attributeStatement.Attributes[i].Name != attributeStatement.Attributes[j].Name)
 //@          ==> assertionInfo.Values[attributeStatement.Attributes[j].Name] == attributeStatement.Attributes[j]
-//@   exit [C08] session: err == nil && response.Assertions[0].AuthnStatement != nil ==>
+//@   exit [C08, C01] session: err == nil && response.Assertions[0].AuthnStatement != nil ==>
 //@        assertionInfo.SessionIndex == response.Assertions[0].AuthnStatement.SessionIndex
 //@        && assertionInfo.AuthnInstant == response.Assertions[0].AuthnStatement.AuthnInstant
 //@        && assertionInfo.SessionNotOnOrAfter == response.Assertions[0].AuthnStatement.SessionNotOnOrAfter
+// Session values come from the (signed) assertion only: without an AuthnStatement none is reported -- in particular
+// nothing is taken from the Response level, which is unauthenticated when only the assertions are signed.
+//@   exit [C08, C01] nosession: err == nil && response.Assertions[0].AuthnStatement == nil ==>
+//@        assertionInfo.SessionIndex == "" && assertionInfo.AuthnInstant == nil && assertionInfo.SessionNotOnOrAfter == nil
 
 // ---------------------------------------------------------------------------
 // saml.go: key selection (C11 C13 C19), signing context (C13 C17), metadata (C19)
@@ -660,7 +669,7 @@ package saml2
 // Guarded-by discipline for the lazily built signing context (C17).
 //@ guarded [C17] SAMLServiceProvider.signingContext by signingContextMu
 // ... and the context object itself is configured only under the write lock (it is shared once published).
-//@ guarded [C17] pointee dsig.SigningContext by SAMLServiceProvider.signingContextMu
+//@ guarded [C17, C13] pointee dsig.SigningContext by SAMLServiceProvider.signingContextMu
 
 //@ pure func KDCert(kd types.KeyDescriptor) string {
 //@   return kd.KeyInfo.X509Data.X509Certificates[0].Data
@@ -968,6 +977,14 @@ package saml2
 //@        && lastarg(SAMLServiceProvider.BuildAuthURLFromDocument, 2) == lastres(SAMLServiceProvider.BuildAuthRequestDocument, 0)
 //@        && result == lastres(SAMLServiceProvider.BuildAuthURLFromDocument, 0) && err == lasterr(SAMLServiceProvider.BuildAuthURLFromDocument)
 
+// AuthRedirect (C14): the browser is sent, with 302 Found, to exactly the URL BuildAuthURL produced for this relay state;
+// nothing is sent when building fails.
+//@ func (sp *SAMLServiceProvider) AuthRedirect(w http.ResponseWriter, r *http.Request, relayState string) (err error)
+//@   requires SPValid(sp) && sp.signingContextMu.$mu == 0 && NoReservedParams(sp.IdentityProviderSSOURL) && (sp.SignAuthnRequests ==> HasSignKey(sp))
+//@   exit [C14] wiring: lastarg(SAMLServiceProvider.BuildAuthURL, 0) == sp && lastarg(SAMLServiceProvider.BuildAuthURL, 1) == relayState
+//@   exit [C14] failed: lasterr(SAMLServiceProvider.BuildAuthURL) != nil ==> err == lasterr(SAMLServiceProvider.BuildAuthURL)
+//@   exit [C14] target: err == nil ==> redirectTarget(w) == lastres(SAMLServiceProvider.BuildAuthURL, 0) && redirectCode(w) == 302
+
 //@ func (sp *SAMLServiceProvider) BuildLogoutRequestDocument(nameID string, sessionIndex string) (doc *etree.Document, err error)
 //@   requires SPValid(sp) && sp.signingContextMu.$mu == 0 && HasSignKey(sp)
 //@   frame [C13, C15]
@@ -1010,31 +1027,34 @@ package saml2
 
 //@ func (sp *SAMLServiceProvider) buildAuthBodyPostFromDocument(relayState string, doc *etree.Document) (out []byte, err error)
 //@   requires sp != nil && doc != nil
-//@   frame [C17]
+//@   frame [C17, C16]
 //@   assigns nothing
 //@   exit [C16] template: err == nil ==> tmplWellFormed(tmpl.$text, "SAMLRequest") && (tmplHasRelay(tmpl.$text) <==> relayState != "")
 //@   exit [C16] endpoint: err == nil ==> data.URL == sp.IdentityProviderSSOURL
 //@   exit [C16] payload: err == nil ==> data.SAMLRequest == b64enc(reqBuf)
+//@   exit [C16] message: err == nil ==> serOf(reqBuf) == old(doc.$root)
 //@   exit [C16] relay: err == nil ==> data.RelayState == relayState
 //@   exit [C16] output: err == nil ==> out == rendered(tmpl.$text, data)
 
 //@ func (sp *SAMLServiceProvider) buildLogoutBodyPostFromDocument(relayState string, doc *etree.Document) (out []byte, err error)
 //@   requires sp != nil && doc != nil
-//@   frame [C17]
+//@   frame [C17, C16]
 //@   assigns nothing
 //@   exit [C16] template: err == nil ==> tmplWellFormed(tmpl.$text, "SAMLRequest") && (tmplHasRelay(tmpl.$text) <==> relayState != "")
 //@   exit [C16] endpoint: err == nil ==> data.URL == sp.IdentityProviderSLOURL
 //@   exit [C16] payload: err == nil ==> data.SAMLRequest == b64enc(reqBuf)
+//@   exit [C16] message: err == nil ==> serOf(reqBuf) == old(doc.$root)
 //@   exit [C16] relay: err == nil ==> data.RelayState == relayState
 //@   exit [C16] output: err == nil ==> out == rendered(tmpl.$text, data)
 
 //@ func (sp *SAMLServiceProvider) buildLogoutResponseBodyPostFromDocument(relayState string, doc *etree.Document) (out []byte, err error)
 //@   requires sp != nil && doc != nil
-//@   frame [C17]
+//@   frame [C17, C16]
 //@   assigns nothing
 //@   exit [C16] template: err == nil ==> tmplWellFormed(tmpl.$text, "SAMLResponse") && (tmplHasRelay(tmpl.$text) <==> relayState != "")
 //@   exit [C16] endpoint: err == nil ==> data.URL == sp.IdentityProviderSLOURL
 //@   exit [C16] payload: err == nil ==> data.SAMLResponse == b64enc(respBuf)
+//@   exit [C16] message: err == nil ==> serOf(respBuf) == old(doc.$root)
 //@   exit [C16] relay: err == nil ==> data.RelayState == relayState
 //@   exit [C16] output: err == nil ==> out == rendered(tmpl.$text, data)
 
